@@ -69,6 +69,12 @@ def work(shard, rec):
             if rnd.random() < 0.12:   # duplicate
                 entries.append(e)
                 meta.append((valid, tuple(b), large))
+            if rnd.random() < 0.15:   # twin: the same colours in the same notation at the *other* text size
+                twin = (e[0], e[1], not large) if (large or rnd.random() < 0.5) else (e[0], e[1])
+                tl = twin[2] if len(twin) == 3 else False
+                entries.append(twin if rnd.random() < 0.7 else list(twin))
+                meta.append((valid, tuple(b), tl))
+                rec.count("twin_entries_other_size")
         mode, vr = settings[(li + shard["idx"]) % 6]
         case = {"entries": [repr(e) for e in entries], "mode": mode, "vr": vr, "seed": shard["seed"], "idx": shard["idx"], "li": li}
         rec.ev()
